@@ -7,6 +7,7 @@ import (
 	"go/ast"
 	"go/token"
 	"go/types"
+	"sort"
 	"strings"
 
 	"golang.org/x/tools/go/ssa"
@@ -265,4 +266,184 @@ func returnsError(body *ast.BlockStmt) bool {
 		}
 	}
 	return false
+}
+
+// ruleHeaderPairing (FMT3, pairing): a rejecting comparison in the reader that mentions the variable decoded at stream
+// position i and a field of the receiver must name the field the writer emitted at position i — efSearch from the
+// stream is compared with the receiver's efSearch, not with another parameter of the same type.
+func ruleHeaderPairing(r *Run, rule string, k *serKind) {
+	w := r.W
+	info := w.Info
+	wf, rf := fieldsOnly(flattenToks(k.Writer.Toks)), fieldsOnly(flattenToks(k.Reader.Toks))
+	if len(wf) != len(rf) {
+		return // FMT1 reports the disagreement
+	}
+	st, _ := k.T.(*types.Pointer).Elem().Underlying().(*types.Struct)
+	if st == nil {
+		return
+	}
+	recvW, recvR := k.Writer.RecvName, k.Reader.RecvName
+	// writer aliases: x := idx.f
+	walias := map[string]string{}
+	for obj, def := range k.Writer.Defs {
+		ds := exprStr(def)
+		for i := 0; i < st.NumFields(); i++ {
+			if containsSel(ds, recvW, st.Field(i).Name()) {
+				walias[obj.Name()] = st.Field(i).Name()
+			}
+		}
+	}
+	emittedField := func(arg string) string {
+		for i := 0; i < st.NumFields(); i++ {
+			if containsSel(arg, recvW, st.Field(i).Name()) {
+				return st.Field(i).Name()
+			}
+		}
+		for a, f := range walias {
+			if identIn(arg, a) {
+				return f
+			}
+		}
+		return ""
+	}
+	// decoded variable (by name) -> field emitted at that position
+	want := map[string]string{}
+	for i := range rf {
+		if f := emittedField(wf[i].Arg); f != "" && rf[i].Arg != "" && !strings.ContainsAny(rf[i].Arg, ".[") {
+			want[rf[i].Arg] = f
+		}
+	}
+	n := 0
+	for _, root := range k.Reader.Roots {
+		ast.Inspect(root, func(nd ast.Node) bool {
+			ifs, ok := nd.(*ast.IfStmt)
+			if !ok || !returnsError(ifs.Body) {
+				return true
+			}
+			be, ok := ifs.Cond.(*ast.BinaryExpr)
+			if !ok || be.Op != token.NEQ {
+				return true
+			}
+			cs := exprStr(be)
+			for v, f := range want {
+				if !identIn(cs, v) {
+					continue
+				}
+				// which receiver fields does the comparison name?
+				var named []string
+				for i := 0; i < st.NumFields(); i++ {
+					if containsSel(cs, recvR, st.Field(i).Name()) {
+						named = append(named, st.Field(i).Name())
+					}
+				}
+				if len(named) == 0 {
+					continue
+				}
+				n++
+				okP := len(named) == 1 && named[0] == f
+				r.Check(okP, rule, fmt.Sprintf("%s:pairs:%s", k.Name, v), w.Pos(ifs.Pos())+" (*"+k.Name+").ReadFrom",
+					"the decoded "+v+" is compared with the receiver's "+f+", the field written at that position",
+					fmt.Sprintf("the value decoded into %s was written from %s.%s but is compared with %s.%s: a stream with another %s is accepted (and a valid one may be refused)", v, recvW, f, recvR, strings.Join(named, ","), f))
+			}
+			return true
+		})
+	}
+	_ = info
+	if n == 0 {
+		r.Note(rule, k.Name+":pairs:none", w.Pos(k.RDecl.Pos()), "no header comparisons against receiver fields")
+	}
+}
+
+// ruleCtorParamsImmutable: the receiver fields the reader compares with the stream (construction parameters) are written
+// by constructors and ReadFrom only. A search or an operation that adjusts one of them makes the next snapshot unreadable
+// by an index built with the original parameters.
+func ruleCtorParamsImmutable(r *Run, rule string, k *serKind) {
+	w := r.W
+	r.Doc(rule, "a construction parameter that is persisted and compared on reload changes after construction: the segment written later is rejected by the template it is loaded into")
+	st, _ := k.T.(*types.Pointer).Elem().Underlying().(*types.Struct)
+	if st == nil {
+		return
+	}
+	recvR := k.Reader.RecvName
+	compared := map[string]bool{}
+	for _, root := range k.Reader.Roots {
+		ast.Inspect(root, func(nd ast.Node) bool {
+			ifs, ok := nd.(*ast.IfStmt)
+			if !ok || !returnsError(ifs.Body) {
+				return true
+			}
+			if be, ok := ifs.Cond.(*ast.BinaryExpr); ok && be.Op == token.NEQ {
+				cs := exprStr(be)
+				for i := 0; i < st.NumFields(); i++ {
+					if containsSel(cs, recvR, st.Field(i).Name()) {
+						compared[st.Field(i).Name()] = true
+					}
+				}
+			}
+			return true
+		})
+	}
+	if len(compared) == 0 {
+		return
+	}
+	// writes anywhere in the package to T.f for compared f, outside constructors (functions returning T) and ReadFrom
+	for _, fn := range w.Funcs {
+		top := fn
+		for top.Parent() != nil {
+			top = top.Parent()
+		}
+		if top.Name() == "ReadFrom" && top.Signature.Recv() != nil && types.Identical(top.Signature.Recv().Type(), k.T) {
+			continue
+		}
+		isCtor := false
+		if top.Signature.Recv() == nil {
+			for i := 0; i < top.Signature.Results().Len(); i++ {
+				if types.Identical(top.Signature.Results().At(i).Type(), k.T) {
+					isCtor = true
+				}
+			}
+		}
+		// a function that allocates the object it assigns to is constructing it
+		allInstrs(top, func(in ssa.Instruction) {
+			if a, ok := in.(*ssa.Alloc); ok && a.Heap && types.Identical(a.Type(), k.T) {
+				isCtor = true
+			}
+		})
+		if isCtor {
+			continue
+		}
+		// an exported setter of the type is the API's way to change the parameter (the owner decides): reported only
+		isSetter := top.Signature.Recv() != nil && types.Identical(top.Signature.Recv().Type(), k.T) && top.Object() != nil && top.Object().Exported() && strings.HasPrefix(top.Name(), "Set")
+		allInstrs(fn, func(in ssa.Instruction) {
+			st2, ok := in.(*ssa.Store)
+			if !ok {
+				return
+			}
+			fa, ok := st2.Addr.(*ssa.FieldAddr)
+			if !ok {
+				return
+			}
+			owner := fa.X.Type()
+			if p, ok := owner.Underlying().(*types.Pointer); ok {
+				owner = p.Elem()
+			}
+			if !types.Identical(owner, k.T.(*types.Pointer).Elem()) {
+				return
+			}
+			f := fieldName(fa.X.Type(), fa.Field)
+			if compared[f] && isSetter {
+				r.Note(rule, fmt.Sprintf("%s:ctor-param:%s:%s", k.Name, f, w.Name(fn)), w.InstrPos(in)+" "+w.Name(fn), "exported setter of the persisted, compared parameter "+f+": a snapshot taken after calling it loads only into an index configured alike")
+				return
+			}
+			if compared[f] {
+				r.Bad(rule, fmt.Sprintf("%s:ctor-param:%s:%s", k.Name, f, w.Name(fn)), w.InstrPos(in)+" "+w.Name(fn), "construction parameter "+f+" (persisted and compared on reload) is assigned outside the constructor / ReadFrom")
+			}
+		})
+	}
+	var fs []string
+	for f := range compared {
+		fs = append(fs, f)
+	}
+	sort.Strings(fs)
+	r.Ok(rule, k.Name+":ctor-params", w.Pos(k.RDecl.Pos())+" (*"+k.Name+").ReadFrom", fmt.Sprintf("compared construction parameters %v: no assignment outside constructors and ReadFrom (other than those reported)", fs))
 }
